@@ -1,5 +1,6 @@
 import TrackVerif.LT.FmtLemmas
 import TrackVerif.LT.XmlLemmas
+import TrackVerif.LT.TimeLemmas
 import TrackVerif.LT.Spec
 import TrackVerif.Generated.LT
 /-
@@ -130,6 +131,52 @@ theorem duration_reencode (n : Nat) :
   have a2 : (n - n % 10000000) % 60000000000 / 1000000000 = n % 60000000000 / 1000000000 := by omega
   have a3 : (n - n % 10000000) % 1000000000 / 10000000 = n % 1000000000 / 10000000 := by omega
   rw [a1, a2, a3]
+
+/-! ### Dates (1969-01-01 … 2068-12-31) -/
+
+theorem lit_lap_string : Spec.schema.lit "LapDate.String" 0 = some "02-Jan-06,15:04:05" := by decide +kernel
+theorem lit_lap_parse : Spec.schema.lit "LapDate.UnmarshalXML" 0 = some "02-Jan-06,15:04:05" := by decide +kernel
+theorem lit_fix_string : Spec.schema.lit "FixDate.String" 0 = some "02-Jan-06,15:04:05.00" := by decide +kernel
+theorem lit_fix_parse : Spec.schema.lit "FixDate.UnmarshalXML" 0 = some "02-Jan-06,15:04:05.00" := by decide +kernel
+
+/-- LapDate: for EVERY instant from 1969-01-01T00:00:00Z to 2068-12-31T23:59:59.999999999Z the
+    printed date (upper-case UTC, two-digit year) parses back to the same instant truncated to
+    whole seconds — the two-digit-year pivot at 69 covers exactly this century -/
+theorem lapdate_roundtrip (sec : Int) (ns : Nat) (h1 : -31536000 ≤ sec) (h2 : sec ≤ 3124223999) :
+    (dateString Spec.schema "LapDate.String" sec ns).bind (dateParse Spec.schema "LapDate.UnmarshalXML")
+      = .ok (.time sec 0) := by
+  obtain ⟨hv, hu, _⟩ := Time.civilOf_valid sec ns h1 h2
+  have hy : ¬ (Time.civilOf sec ns).year < 0 := by have := hv.year_lo; omega
+  have hasc := Time.format_lap_ascii _ hv
+  have hasc' : ((Time.formatToks (Time.civilOf sec ns) Time.lapToks).all fun c => decide (c.toNat < 128)) = true := hasc
+  simp only [dateString, lit_lap_string, Option.bind_some, Time.format, Time.lap_layout, hy, if_false, hasc',
+    if_true, Outcome.bind, dateParse, lit_lap_parse, Time.parse_format_lap _ hv, hu]
+
+/-- FixDate: the same with centiseconds (truncated) -/
+theorem fixdate_roundtrip (sec : Int) (ns : Nat) (h1 : -31536000 ≤ sec) (h2 : sec ≤ 3124223999)
+    (hns : ns < 1000000000) :
+    (dateString Spec.schema "FixDate.String" sec ns).bind (dateParse Spec.schema "FixDate.UnmarshalXML")
+      = .ok (.time sec (ns / 10000000 * 10000000)) := by
+  obtain ⟨hv, hu, hn⟩ := Time.civilOf_valid sec ns h1 h2
+  have hy : ¬ (Time.civilOf sec ns).year < 0 := by have := hv.year_lo; omega
+  have hns' : (Time.civilOf sec ns).ns < 1000000000 := by rw [hn]; exact hns
+  have hasc := Time.format_fix_ascii _ hv hns'
+  have hasc' : ((Time.formatToks (Time.civilOf sec ns) Time.fixToks).all fun c => decide (c.toNat < 128)) = true := hasc
+  simp only [dateString, lit_fix_string, Option.bind_some, Time.format, Time.fix_layout, hy, if_false, hasc',
+    if_true, Outcome.bind, dateParse, lit_fix_parse, Time.parse_format_fix _ hv hns', hu, hn]
+
+/-- … and the truncated instants print the same text again (stable re-encoding) -/
+theorem lapdate_reencode (sec : Int) (ns : Nat) :
+    dateString Spec.schema "LapDate.String" sec 0 = dateString Spec.schema "LapDate.String" sec ns := by
+  simp only [dateString, lit_lap_string, Option.bind_some, Time.format, Time.lap_layout]
+  have : Time.formatToks (Time.civilOf sec 0) Time.lapToks = Time.formatToks (Time.civilOf sec ns) Time.lapToks := by
+    simp [Time.lapToks, Time.formatToks, Time.civilOf]
+  have hy : (Time.civilOf sec 0).year = (Time.civilOf sec ns).year := by simp [Time.civilOf]
+  rw [this, hy]
+
+/-- non-vacuity: the pivot years and a leap day -/
+example : (dateString Spec.schema "LapDate.String" (-31536000) 5).bind (dateParse Spec.schema "LapDate.UnmarshalXML") = .ok (.time (-31536000) 0) :=
+  lapdate_roundtrip _ _ (by decide) (by decide)
 
 /-- non-vacuity: 100+ minute durations print three minute digits and still come back -/
 example : (durationString Spec.schema 6123450000000).bind (durationParse Spec.schema) = .ok 6123450000000 := by
